@@ -10,7 +10,10 @@ import Toq.Core.EMat
   `checkLamMinLower A c L` (PSD witness for `A − c·1`) and `checkLamMinUpper A v` (Rayleigh quotient of a
   non-zero vector), and the verdict `pptVerdict` they determine for a tolerance `tol`;
 * the Gurvits–Barnum separable-ball test, once as a line-by-line mirror of `in_separable_ball.py`
-  (`inSepBallMirror`) and once as the plain rational inequality `(d − 1)·‖M‖_F² ≤ (tr M)²` (`inSepBall`).
+  (`inSepBallMirror`) and once as the plain rational inequality `(d − 1)·‖M‖_F² ≤ (tr M)²` (`inSepBall`);
+* the exact realignment `realignE`, marginals `ptrBE`/`ptrAE` and the partial application `choiApplyB`/`choiApplyA` of a map given
+  by its Choi matrix: the operators on which the necessary criteria of `is_separable` (realignment, Zhang et al., positive maps) are
+  evaluated.
 -/
 
 namespace Toq.Sep
@@ -143,5 +146,34 @@ def inSepBall (thr : Rat) (M : EMat n n) : Bool :=
 /-- vector form of `in_separable_ball` (the argument is the list of eigenvalues): the test on `diag λ` -/
 def inSepBallEig (thr : Rat) (lam : List Rat) : Bool :=
   inSepBall (n := lam.length) thr (ofFn fun i j => if i = j then QI.ofRat (lam.getD i.val 0) else 0)
+
+/-! ## Realignment, partial traces, partial application of a map given by its Choi matrix
+
+(the quantities evaluated by the necessary criteria of `is_separable` after the PPT test) -/
+
+/-- `realignment(X, [dA, dB])`: the `dA² × dB²` matrix with entry `(a·dA + a', b·dB + b') = X[a·dB + b, a'·dB + b']` -/
+def realignE (X : EMat (dA * dB) (dA * dB)) : EMat (dA * dA) (dB * dB) :=
+  ofFn fun i j => X.get (pair (fstI i) (fstI j)) (pair (sndI i) (sndI j))
+
+/-- `partial_trace(X, [1], [dA, dB])`: trace out the second party -/
+def ptrBE (X : EMat (dA * dB) (dA * dB)) : EMat dA dA :=
+  ofFn fun a a' => sumFin dB fun b => X.get (pair a b) (pair a' b)
+
+/-- `partial_trace(X, [0], [dA, dB])`: trace out the first party -/
+def ptrAE (X : EMat (dA * dB) (dA * dB)) : EMat dB dB :=
+  ofFn fun b b' => sumFin dA fun a => X.get (pair a b) (pair a b')
+
+/-- `partial_channel(X, J, 2, [dA, dB])` for a Choi matrix `J = Σ_kl E_kl ⊗ Φ(E_kl)` of a map from `dB × dB` to
+`dO × dO` matrices: `(id ⊗ Φ)(X)[a·dO + o, a'·dO + o'] = Σ_kl X[a·dB + k, a'·dB + l] · J[k·dO + o, l·dO + o']` -/
+def choiApplyB {dO : Nat} (J : EMat (dB * dO) (dB * dO)) (X : EMat (dA * dB) (dA * dB)) :
+    EMat (dA * dO) (dA * dO) :=
+  ofFn fun i j => sumFin dB fun k => sumFin dB fun l =>
+    X.get (pair (fstI i) k) (pair (fstI j) l) * J.get (pair k (sndI i)) (pair l (sndI j))
+
+/-- `partial_channel(X, J, 1, [dA, dB])`: `(Φ ⊗ id)(X)[o·dB + b, o'·dB + b'] = Σ_kl X[k·dB + b, l·dB + b'] · J[k·dO + o, l·dO + o']` -/
+def choiApplyA {dO : Nat} (J : EMat (dA * dO) (dA * dO)) (X : EMat (dA * dB) (dA * dB)) :
+    EMat (dO * dB) (dO * dB) :=
+  ofFn fun i j => sumFin dA fun k => sumFin dA fun l =>
+    X.get (pair k (sndI i)) (pair l (sndI j)) * J.get (pair k (fstI i)) (pair l (fstI j))
 
 end Toq.Sep
